@@ -103,6 +103,10 @@ pub trait Workload: Sync {
     fn runs_needed(&self, _tier: Tier) -> Option<u64> {
         None
     }
+    /// a verdict over the whole batch (rates), from the merged accounting; None = holds
+    fn batch_verdict(&self, _acct: &Value) -> Option<(String, String)> {
+        None
+    }
     /// extra coverage keys computed at the end of a batch
     fn extra_coverage(&self) -> BTreeMap<String, Value> {
         BTreeMap::new()
@@ -546,6 +550,24 @@ pub fn check<W: Workload>(w: &W, tier: Tier, plan: BatchPlan) -> i32 {
         println!("violation: {} :: {}", f.signature, f.message);
         println!("VIOLATION property={} replay={}", w.property(), path);
     }
+    if let Some((sig, msg)) = w.batch_verdict(&r.acct) {
+        if let Some(k) = known.iter().find(|k| k.signature == sig) {
+            println!("KNOWN-FINDING: property={} {} [{}]", w.property(), k.what, sig);
+            known_hits.push(sig.clone());
+        } else if !r.capped && r.runs == plan.runs {
+            violations += 1;
+            let dir = verif_root().join("replays");
+            let _ = std::fs::create_dir_all(&dir);
+            let path = dir.join(format!("{}-batch-{}.json", w.property(), seed));
+            let v = json!({"property": w.property(), "workload": w.name(), "signature": sig, "message": msg,
+                "batch": {"seed": seed, "tier": tier.name(), "runs": plan.runs}});
+            let _ = std::fs::write(&path, serde_json::to_string_pretty(&v).unwrap());
+            println!("violation: {sig} :: {msg}");
+            println!("VIOLATION property={} replay={}", w.property(), path.to_string_lossy());
+        } else {
+            println!("note: batch verdict not evaluated on an incomplete batch: {sig} :: {msg}");
+        }
+    }
     for k in &known {
         if !known_hits.contains(&k.signature) {
             println!(
@@ -614,6 +636,28 @@ pub fn check<W: Workload>(w: &W, tier: Tier, plan: BatchPlan) -> i32 {
 
 /// Re-execute a replay file in this (fresh) process.
 pub fn replay<W: Workload>(w: &W, v: &Value) -> i32 {
+    if !v["batch"].is_null() {
+        // a batch-level (rate) violation: re-run the same batch and re-evaluate the verdict
+        let tier = if v["batch"]["tier"] == "thorough" { Tier::Thorough } else { Tier::Quick };
+        let plan = BatchPlan { runs: v["batch"]["runs"].as_u64().unwrap_or(1), wall_cap_s: 36000 };
+        let r = run_batch(w, tier, v["batch"]["seed"].as_u64().unwrap_or(0), &plan);
+        crate::procsim::cleanup_scratch();
+        if let Some(e) = r.harness_error {
+            eprintln!("HARNESS-ERROR {e}");
+            return 2;
+        }
+        return match w.batch_verdict(&r.acct) {
+            Some((sig, msg)) => {
+                println!("violation: {sig} :: {msg}");
+                println!("VIOLATION property={} replay={}", w.property(), v["__path"].as_str().unwrap_or("?"));
+                1
+            }
+            None => {
+                println!("replay: no violation (batch verdict holds)");
+                0
+            }
+        };
+    }
     let case: W::Case = match serde_json::from_value(v["case"].clone()) {
         Ok(c) => c,
         Err(e) => {
